@@ -6,7 +6,13 @@ impl Vm {
   pub fn resolve_call(&mut self, callee: Value, arg_count: u8) -> (r: ExecutionSignal)
     ensures final(self).called@ == Some((callee, arg_count, old(self).fiber.stack@)),
             final(self).cache == old(self).cache, final(self).heap == old(self).heap, final(self).raised == old(self).raised,
-            final(self).constants == old(self).constants, final(self).builtin == old(self).builtin
+            final(self).constants == old(self).constants, final(self).builtin == old(self).builtin, final(self).nested == old(self).nested,
+            // a callee that completes at once (a native) leaves its result on the stack
+            r == ExecutionSignal::OkReturn ==> final(self).fiber.stack@.len() > 0,
+            // the signals a call can end with (proved for the real resolve_call / call_native / call / call_closure in the calls and ncall units)
+            r == ExecutionSignal::Ok || r == ExecutionSignal::OkReturn || r == ExecutionSignal::RuntimeError || r == ExecutionSignal::Exit,
+            // A-hist: a runtime error signal means the error object is in flight (runtime_error -> set_error; the ops model records only its class)
+            r == ExecutionSignal::RuntimeError ==> final(self).fiber.error is Some
   { ExecutionSignal::Ok }
 
 }
